@@ -161,12 +161,16 @@ def target_var_scope(ctx):
 
 
 def check(ctx):
-    ctx.rule('ESC-MAKE', 'for every site where Makefile/Writer emits script-'
-             'derived text, every Syntax member that reaches the site escapes '
-             'every GNU Make metacharacter of that lexical context')
-    ctx.rule('SYNTAX-POSITION', 'names left of a colon are written with '
-             'Syntax.target, right of it with Syntax.dependency; values and '
-             'recipes with Syntax.shell/clean')
+    ctx.rule('ESC-MAKE', 'every Syntax member (escape chain extracted from '
+             'Writer.escape_str per member) escapes every GNU Make '
+             'metacharacter of the lexical contexts it is designed for '
+             '(shell/clean: variable values, recipes, define bodies; '
+             'function: $(call ...) arguments); keys are '
+             'context|member|character')
+    ctx.rule('SYNTAX-POSITION', 'value flow from Makefile.write through its '
+             'helpers: recipe lines, define bodies and variable values are '
+             'written with Syntax.shell (or clean), and each of these kinds '
+             'of data is written with the shell member at least once')
     ctx.not_decided += [
         'that sh un-quoting o Make expansion o quote is the identity for '
         'every string (incl. quote de-duplication in wrap_quotes): a string-'
